@@ -6,6 +6,7 @@ import (
 	"log/slog"
 	"net/http"
 	"reservoir/utils/syncmap"
+	"sync"
 	"time"
 )
 
@@ -26,6 +27,16 @@ const gcInterval = 15 * time.Minute
 var sessionStore *syncmap.SyncMap[string, *Session] = syncmap.New[string, *Session]()
 var gcRunning = false
 
+// Guards the ExpiresAt of stored sessions: two requests that carry the same cookie check and extend the
+// same session at the same moment.
+var sessionMu sync.Mutex
+
+func (s *Session) expiresAt() time.Time {
+	sessionMu.Lock()
+	defer sessionMu.Unlock()
+	return s.ExpiresAt
+}
+
 func StartSessionGC() {
 	if gcRunning {
 		return
@@ -37,7 +48,7 @@ func StartSessionGC() {
 		for range ticker.C {
 			now := time.Now()
 			for item := range sessionStore.Items() {
-				if item.ExpiresAt.Before(now) {
+				if item.expiresAt().Before(now) {
 					sessionStore.Delete(item.ID)
 					slog.Debug("Deleted expired session", "session_id", item.ID)
 				}
@@ -53,6 +64,9 @@ func GetSession(sid string) (*Session, bool) {
 	if !ok {
 		return nil, false
 	}
+
+	sessionMu.Lock()
+	defer sessionMu.Unlock()
 
 	// An expired session is refused (and dropped), not revived.
 	if !sess.ExpiresAt.After(time.Now()) {
@@ -99,7 +113,7 @@ func SessionFromRequest(r *http.Request) (sess *Session, ok bool) {
 	if !ok {
 		return nil, false
 	}
-	slog.Debug("Got session from cookie", "session_id", sid, "expires_at", sess.ExpiresAt)
+	slog.Debug("Got session from cookie", "session_id", sid, "expires_at", sess.expiresAt())
 
 	return sess, true
 }
